@@ -183,6 +183,9 @@ func Excluded(reason string) {
 	mu.Unlock()
 }
 
+// Avoided counts a generator draw that was steered around a recorded finding.
+func Avoided(reason string) { Excluded("avoided-by-construction:" + reason) }
+
 func Note(format string, args ...any) {
 	mu.Lock()
 	st.Notes = append(st.Notes, fmt.Sprintf(format, args...))
